@@ -311,6 +311,22 @@ func (p *parser) assignNoLiteral() ast.Statement {
 	)
 }
 
+// parses the single (non-block) statement that forms the body of an if or a loop
+// alias declarations are no Ast Nodes (checkedDeclaration returns nil for them)
+// and are only allowed in the global scope
+func (p *parser) singleStatementBody() ast.Statement {
+	begin := p.peek()
+	stmt := p.checkedDeclaration()
+	if stmt == nil {
+		p.err(ddperror.SEM_ALIAS_MUST_BE_GLOBAL, token.NewRange(begin, p.previous()), "Ein Alias darf nur im globalen Bereich deklariert werden!")
+		stmt = &ast.BadStmt{
+			Err: p.lastError,
+			Tok: *begin,
+		}
+	}
+	return stmt
+}
+
 func (p *parser) ifStatement() ast.Statement {
 	If := p.previous()          // the already consumed wenn token
 	condition := p.expression() // parse the condition
@@ -326,7 +342,7 @@ func (p *parser) ifStatement() ast.Statement {
 		}
 		comma := p.previous()
 		p.setScope(thenScope)
-		Then = p.checkedDeclaration() // parse the single (non-block) statement
+		Then = p.singleStatementBody() // parse the single (non-block) statement
 		p.exitScope()
 		Then = &ast.BlockStmt{
 			Range:      Then.GetRange(),
@@ -345,7 +361,7 @@ func (p *parser) ifStatement() ast.Statement {
 			} else { // without it we just parse a single statement
 				_else := p.previous()
 				p.setScope(elseScope)
-				Else = p.checkedDeclaration()
+				Else = p.singleStatementBody()
 				p.exitScope()
 				Else = &ast.BlockStmt{
 					Range:      Else.GetRange(),
@@ -396,7 +412,7 @@ func (p *parser) whileStatement() ast.Statement {
 	} else {
 		is := p.previous()
 		p.setScope(bodyTable)
-		Body = p.checkedDeclaration()
+		Body = p.singleStatementBody()
 		p.exitScope()
 		Body = &ast.BlockStmt{
 			Range:      Body.GetRange(),
@@ -506,7 +522,7 @@ func (p *parser) forStatement() ast.Statement {
 		} else { // body is a single statement
 			Colon := p.previous()
 			p.setScope(bodyTable)
-			stmt := p.checkedDeclaration()
+			stmt := p.singleStatementBody()
 			p.exitScope()
 			// wrap the single statement in a block for variable-scoping of the counter variable in the resolver and typechecker
 			Body = &ast.BlockStmt{
@@ -584,7 +600,7 @@ func (p *parser) forStatement() ast.Statement {
 		} else { // body is a single statement
 			Colon := p.previous()
 			p.setScope(bodyTable)
-			stmt := p.checkedDeclaration()
+			stmt := p.singleStatementBody()
 			p.exitScope()
 			// wrap the single statement in a block for variable-scoping of the counter variable in the resolver and typechecker
 			Body = &ast.BlockStmt{
